@@ -124,8 +124,29 @@ def run(model: RepoModel, rep, tier: str):
                             unlink.add(k)
                 reach = cfg.reachable(n)
                 if unlink & reach:
-                    # the unlink must be conditional on the node being childless and non-terminal
-                    rep.holds("C19.R2", key, FILE, st.lineno, "dead branch is unlinked after the terminal flag is cleared")
+                    # the unlink has to be repeated for every ancestor that thereby leads to no stored path: it sits in a loop
+                    # (or the function recurses), and the walk stops at a terminal or branching node
+                    recursive = any(isinstance(x, ast.Call) and is_self_attr(x.func, f.name) for x in walk_no_nested(f.node))
+                    in_loop = [h for h, body in cfg.loop_body_nodes.items() if (unlink & reach) & body]
+                    stop_ok = False
+                    for h in in_loop:
+                        for k in cfg.loop_body_nodes[h]:
+                            s3 = cfg.stmt.get(k)
+                            if cfg.kind[k] == "test" and isinstance(s3, ast.If) and _mentions_attr(s3.test, "is_terminal") \
+                                    and _mentions_attr(s3.test, "children") and any(isinstance(b, (ast.Break, ast.Return)) for b in s3.body):
+                                stop_ok = True
+                    if (in_loop and stop_ok) or recursive:
+                        rep.holds("C19.R2", key, FILE, st.lineno,
+                                  "dead branch is unlinked ancestor by ancestor, stopping at the first terminal or branching node")
+                    elif in_loop:
+                        rep.violation("C19.R2", key, FILE, st.lineno,
+                                      f"{f.qualname} unlinks ancestors in a loop that does not stop at a node that is terminal or still has "
+                                      f"children: removing a path also destroys a stored prefix or a sibling branch")
+                    else:
+                        rep.violation("C19.R2", key, FILE, st.lineno,
+                                      f"{f.qualname} unlinks only one node after clearing a terminal flag; the ancestors that thereby lead to "
+                                      f"no stored path stay in the trie and add_path (which takes 'has children' as evidence of a longer "
+                                      f"stored path) keeps rejecting their paths: add([a,b,c]); remove([a,b,c]); add([a]) is rejected")
                 else:
                     ev = evidence[0]
                     rep.violation("C19.R2", key, FILE, st.lineno,
@@ -177,6 +198,45 @@ def run(model: RepoModel, rep, tier: str):
         else:
             rep.violation("C19.R3", key, FILE, madd.node.lineno,
                           f"PathManager.add_path reaches self.{trie_attr}.add_path without passing the {label}: {why} can be stored")
+    # the validity predicate is universal over the path's call sites, and a call site is invalid if any id is negative
+    cp = m.classes.get("CallPath")
+    cs = m.classes.get("CallSite")
+    hv = cp.methods.get("has_any_negative") if cp else None
+    key = f"{FILE}::CallPath.has_any_negative::examines every call site"
+    if hv is None:
+        rep.violation("C19.R3", key, FILE, (cp.node.lineno if cp else 1), "CallPath.has_any_negative vanished: PathManager's filter cannot work")
+    else:
+        universal = False
+        for n in walk_no_nested(hv.node):
+            it = None
+            if isinstance(n, ast.For):
+                it, var, scope = n.iter, n.target, n
+            elif isinstance(n, (ast.GeneratorExp, ast.ListComp)) and n.generators:
+                it, var, scope = n.generators[0].iter, n.generators[0].target, n
+            if it is not None and is_self_attr(it, "path") and isinstance(var, ast.Name):
+                if any(isinstance(x, ast.Call) and isinstance(x.func, ast.Attribute) and x.func.attr == "has_negative"
+                       and isinstance(x.func.value, ast.Name) and x.func.value.id == var.id for x in ast.walk(scope)):
+                    universal = True
+        if universal:
+            rep.holds("C19.R3", key, FILE, hv.node.lineno, "iterates self.path and asks every call site")
+        else:
+            rep.violation("C19.R3", key, FILE, hv.node.lineno,
+                          "CallPath.has_any_negative does not examine every call site of the path (no iteration over self.path calling "
+                          "has_negative on each element): a path with an invalid call site in another position passes PathManager's filter "
+                          "and is stored")
+    hn = cs.methods.get("has_negative") if cs else None
+    key = f"{FILE}::CallSite.has_negative::tests every id"
+    if hn is not None and cs is not None:
+        ids = [n.targets[0].attr for n in walk_no_nested(cs.methods["__init__"].node) if isinstance(n, ast.Assign) and is_self_attr(n.targets[0])]
+        tested = {x.left.attr for x in walk_no_nested(hn.node) if isinstance(x, ast.Compare) and is_self_attr(x.left)
+                  and isinstance(x.ops[0], ast.Lt) and is_const(x.comparators[0], 0)}
+        disj = all(isinstance(x.op, ast.Or) for x in walk_no_nested(hn.node) if isinstance(x, ast.BoolOp))
+        if set(ids) <= tested and disj:
+            rep.holds("C19.R3", key, FILE, hn.node.lineno, f"{ids} each compared `< 0`, combined with `or`")
+        else:
+            rep.violation("C19.R3", key, FILE, hn.node.lineno,
+                          f"CallSite.has_negative tests {sorted(tested)} of the ids {ids}" + ("" if disj else " and does not combine them with `or`")
+                          + ": a call site with a negative id in an untested position counts as valid")
     for f, callee in ((madd, "add_path"), (mrem, "remove_path")):
         cfg = cfg_of(f.node)
         calls = [n for n in cfg.g.nodes for c in cfg.calls_at(n)
@@ -293,6 +353,14 @@ MUTANTS = [
     ("evict-no-mark", FILE, _m("PathTrie", "add_path", lambda st: isinstance(st, ast.Expr) and isinstance(st.value, ast.Call)
                                and call_name(st.value) == "self._mark_non_terminal"), "PathTrie.add_path::self.paths.discard"),
     ("no-prune", FILE, _m("PathTrie", "_mark_non_terminal", lambda st: isinstance(st, ast.Delete)), "PathTrie._mark_non_terminal"),
+    ("prune-one-level", FILE, lambda src: __import__("sa.mutate", fromlist=["x"]).replace_stmt_where(
+        src, "PathTrie", "_mark_non_terminal", lambda st: isinstance(st, ast.For) and any(isinstance(x, ast.Delete) for x in ast.walk(st)),
+        "if visited and not node.children:\n    parent, elem = visited[-1]\n    del parent.children[elem]"), "PathTrie._mark_non_terminal"),
+    ("negative-check-last-only", FILE, lambda src: __import__("sa.mutate", fromlist=["x"]).replace_stmt_where(
+        src, "CallPath", "has_any_negative", lambda st: isinstance(st, ast.For),
+        "if self.path and self.path[-1].has_negative():\n    return True"), "has_any_negative"),
+    ("has-negative-misses-callee", FILE, lambda src: __import__("sa.mutate", fromlist=["x"]).replace_expr_where(
+        src, "CallSite", "has_negative", lambda e: isinstance(e, ast.BoolOp), "self.caller_id < 0 or self.call_stmt_id < 0"), "CallSite.has_negative"),
     ("no-negative-filter", FILE, _m("PathManager", "add_path", lambda st: isinstance(st, ast.If) and _mentions_call(st.test, "has_any_negative")),
      "negative-id filter"),
     ("no-type-filter", FILE, _m("PathManager", "add_path", lambda st: isinstance(st, ast.If) and _mentions_call(st.test, "isinstance")),
